@@ -136,6 +136,7 @@ func c09Scenario(p c09Params) Scenario {
 		c, pr := newClientPair(8192, p.Dotu)
 		peer = pr
 		peer.Batch = len(p.Calls)
+		peer.BatchOnce = true // later rounds are answered at once (decided by the peer itself: no shared harness state)
 		peer.Order = p.Order
 		peer.OneWrite = p.OneWrite
 		for i, k := range p.Kinds {
@@ -155,9 +156,6 @@ func c09Scenario(p c09Params) Scenario {
 			vs.Go("caller", func() {
 				for j, sp := range p.Calls[i] {
 					results[i][j] = doCall(c, sp)
-					if j == 0 {
-						peer.Batch = 0 // later rounds are answered at once
-					}
 				}
 				done.Release()
 			})
